@@ -234,6 +234,12 @@ impl Sim {
         }
     }
 
+    /// 1 when the current task is polled from the top-level loop, more when it runs nested inside
+    /// another task's poll (preemption).
+    pub fn depth(&self) -> usize {
+        self.stack.borrow().len()
+    }
+
     pub fn cur_task(&self) -> u16 {
         self.stack.borrow().last().map(|x| *x as u16).unwrap_or(u16::MAX)
     }
